@@ -139,6 +139,34 @@ func main() {
 				}
 			}
 		}
+	case "e2path":
+		// debugging aid: e2path <check> <jobidx> <step>... ; step = "timeout" | "tx" | substring of a symbol name
+		idx, _ := strconv.Atoi(os.Args[3])
+		sc := checks[os.Args[2]].Jobs("quick")[idx].Scenario.finish()
+		w := newWorldLogged(sc)
+		for _, st := range os.Args[4:] {
+			evs := w.enabled()
+			done := false
+			for _, e := range evs {
+				d := w.describe(e)
+				if (e.K == st) || (e.K == "inj" && strings.Contains(d, st)) {
+					w.apply(e)
+					done = true
+					break
+				}
+			}
+			if !done {
+				fmt.Println("!! step not enabled:", st)
+				for _, e := range evs {
+					fmt.Println("     ", w.describe(e))
+				}
+				break
+			}
+		}
+		for _, l := range w.log {
+			fmt.Println(l)
+		}
+		fmt.Println(w.viol)
 	case "dumpjob":
 		// debugging aid: print job <idx> of check <id> as JSON
 		idx, _ := strconv.Atoi(os.Args[3])
